@@ -86,7 +86,8 @@ class Ctx:
         """Obligations of another property's rules about a callee this property depends on: the selected obligations
         (select(ob) -> bool) of `src_pid` are copied under rule `newrule` with instance 'dependency:<instance>'."""
         import importlib
-        key = (id(self.prog), src_pid)
+        cache = self.prog.__dict__.setdefault('_inherit_cache', {})     # per program object, never by id()
+        key = src_pid
         if key not in cache:
             sub = Ctx(src_pid, self.tier, self.prog)
             try:
